@@ -323,10 +323,14 @@ def backend_scatters(prog: Program, chk: Check, rule: str = "R1") -> None:
                 zeros_shapes[dotted(st.targets[0])] = [R.role(e, nid) for e in st.value.args[0].elts]
         n_sc = 0
         for st in walk_local(u.node):
-            if not (isinstance(st, ast.Assign) and isinstance(st.targets[0], ast.Subscript)):
+            if isinstance(st, ast.AugAssign) and isinstance(st.target, ast.Subscript):
+                tgt0 = st.target
+            elif isinstance(st, ast.Assign) and isinstance(st.targets[0], ast.Subscript):
+                tgt0 = st.targets[0]
+            else:
                 continue
             chain = []
-            cur = st.targets[0]
+            cur = tgt0
             while isinstance(cur, ast.Subscript):
                 # a[i][j] and a[i, j] address the same axes
                 sl = cur.slice
@@ -341,6 +345,8 @@ def backend_scatters(prog: Program, chk: Check, rule: str = "R1") -> None:
             shape = zeros_shapes[base]
             bad = []
             for ax, sl in enumerate(chain):
+                if isinstance(sl, ast.Slice) and sl.lower is None and sl.upper is None:
+                    continue                  # the whole axis
                 r_idx = R.role(sl, nid)
                 r_sz = shape[ax] if ax < len(shape) else frozenset()
                 if r_idx != r_sz:
@@ -435,6 +441,15 @@ def r2(prog: Program, chk: Check) -> None:
             f"[1]={sub_ok}: indices are not grouped by their full key tuple", c)
 
 
+def r3(prog: Program, chk: Check) -> None:
+    chk.rule("R3", "degeneracy reduction does not touch the basis rotation: with and without it "
+             "the dk=0 tensor is rotated by one np.dot with self._super_u_dagg (as it is) and one "
+             "with self._super_u (transposed); the two superoperators are used nowhere else in "
+             "initialize_mps_mpo", floor=2)
+    from rules.c05 import rotation_per_case
+    rotation_per_case(prog, chk, "R3")
+
+
 def run(prog: Program, chk: Check) -> None:
     chk.explanation = (
         "Decides role consistency of the two degeneracy maps: provenance tags NORTH (classes of "
@@ -450,3 +465,4 @@ def run(prog: Program, chk: Check) -> None:
                        "A[i]*B[j]"]
     chk.call(r1, prog, chk)
     chk.call(r2, prog, chk)
+    chk.call(r3, prog, chk)
